@@ -45,9 +45,9 @@ def work(item):
     obs = {}
     for bits in cfgs:
         env = env_of(bits)
-        cases = [{"id": i, "steps": steps} for i, steps in lst]
-        iso = [c for c in cases if any("(define" in s for s in c["steps"])]
-        bat = [c for c in cases if not any("(define" in s for s in c["steps"])]
+        cases = [{"id": i, "steps": c01.mat(steps)} for i, steps in lst]
+        iso = [c for c in cases if any(("(define" in s or "(require" in s) for s in c["steps"])]
+        bat = [c for c in cases if not any(("(define" in s or "(require" in s) for s in c["steps"])]
         res = common.run_cases(bat, env=env, batch=25, timeout_ms=20000)
         res.update(common.run_cases(iso, env=env, batch=1, timeout_ms=20000))
         obs[bits] = {i: norm(c01.observe(res[i], len(steps))) for i, steps in lst}
@@ -75,11 +75,13 @@ def norm(obs):
 
 
 def observe_one(steps, bits):
-    r = common.run_cases([{"id": 0, "steps": steps}], env=env_of(bits), batch=1, timeout_ms=20000)[0]
+    r = common.run_cases([{"id": 0, "steps": c01.mat(steps)}], env=env_of(bits), batch=1, timeout_ms=20000)[0]
     return norm(c01.observe(r, len(steps)))
 
 
 def differs(steps, b1, b2):
+    if not c01.wellformed(steps):
+        return False
     return observe_one(steps, b1) != observe_one(steps, b2)
 
 
